@@ -422,6 +422,47 @@ def v13(rep):
         rep.ok("V13", "order-by-comparison:none", sample={"functions": nfun})
 
 
+def v14(rep):
+    """What is handed back to the store is the pointer the store handed out.  The word loops of these modules walk their
+    operands with `*p++`; a function that then frees `p` frees an address inside (or just past) the block -- the store answers
+    `attempt to free unknown space` and the process ends (bitvResize grew a vector by copying with `*b++` and then freed `b`).
+    In the container units no pointer parameter or local that is stepped (`++`, `--`, `+=`, `-=`) anywhere in a function is
+    an argument of a freeing call (stoFree, *Free) in that function."""
+    n = 0
+    nfree = 0
+    for unit in V10_UNITS + ("list.c",):
+        f = common.extract(unit, all_trees=True)
+        for name, fn in sorted(f.funcs.items()):
+            if "body" not in fn or not fn.get("file", "").endswith(unit):
+                continue
+            stepped = {}
+            for x in walk(fn["body"]):
+                if x["k"] == "UnaryOperator" and x["op"] in ("++", "--", "post++", "post--"):
+                    v = strip(x["c"][0])
+                    if v is not None and v["k"] == "DeclRefExpr" and v.get("tc") == "ptr":
+                        stepped.setdefault(v["n"], x["l"])
+                elif x["k"] in ("CompoundAssignOperator", "BinaryOperator") and x.get("op") in ("+=", "-="):
+                    v = strip(x["c"][0])
+                    if v is not None and v["k"] == "DeclRefExpr" and v.get("tc") == "ptr":
+                        stepped.setdefault(v["n"], x["l"])
+            for c in calls(fn["body"]):
+                cal = c.get("callee") or ""
+                if not (cal == "stoFree" or cal.endswith("Free") or cal == "free"):
+                    continue
+                nfree += 1
+                for a in c["c"][1:]:
+                    a_ = strip(a)
+                    if a_ is not None and a_["k"] == "DeclRefExpr" and a_["n"] in stepped:
+                        n += 1
+                        rep.violation("V14", "free-what-was-allocated:%s:%s" % (unit, name), "%s:%d (%s)" % (unit, c["l"], name),
+                                      "`%s` is stepped at line %d and then handed to %s: the address freed lies inside or past the "
+                                      "block that was allocated, the store reports `attempt to free unknown space` and the "
+                                      "process ends (growing a bit vector from 64 to 200 bits)" % (a_["n"], stepped[a_["n"]], cal))
+    rep.floor("freeing calls in the container units", nfree, 10)
+    if n == 0:
+        rep.ok("V14", "free-what-was-allocated", sample={"freeing calls": nfree})
+
+
 def v6(rep):
     """B-tree node layout: a node with n keys has n+1 branches, key j sits between branch j and branch j+1.  When a rotation moves
     the *last* key of a node (index n-1) out of it, the branch that goes with it is the last branch (index n); when it moves the
@@ -731,6 +772,7 @@ def run(tier, only=None):
     v10(rep)
     v11(rep)
     v13(rep)
+    v14(rep)
     try:
         v5(rep)
     except AnalysisBroken as e:
